@@ -59,6 +59,10 @@ type matcherCompiler struct {
 	// All dots found during match compilation.
 	dots []token.Pos
 
+	// Names of all metavariables found during match compilation, in the
+	// order in which they were found.
+	metavars []string
+
 	patchStart, patchEnd token.Pos
 }
 
